@@ -147,6 +147,8 @@ fn workbook(c: &Case, variant: u64) -> (Workbook, Value, Option<String>) {
     }
     let expected = if cells.is_empty() { json!({"start": [], "end": [], "cells": []}) } else { json!({"start": [rmin, 0], "end": [rmax, cmax], "cells": cells}) };
     let mut wb = Workbook::default();
+    // the CODEPAGE record does not govern BIFF8 strings: 1200 (what Excel writes), 1252, absent
+    wb.codepage = match variant % 3 { 0 => Some(1200), 1 => Some(1252), _ => None };
     wb.sst = Sst::Frags(c.frags.clone());
     wb.sheets.push(Sheet { name: XlStr::new("Sheet1"), dims: None, recs });
     let mut second = None;
@@ -325,6 +327,7 @@ pub fn drive(args: &Args) -> i32 {
             }
         }
         let mut wb = Workbook::default();
+        wb.codepage = match frags.len() % 3 { 0 => Some(1200), 1 => Some(1252), _ => None };
         wb.sst = Sst::Frags(frags.clone());
         wb.sheets.push(Sheet { name: XlStr::new("Sheet1"), dims: None, recs });
         let file = biff::xls_bytes(&wb);
